@@ -43,11 +43,23 @@ def edge_text(rng):
     return rng.choice([f"{le}{lo} || {ge}{hi}", f"{le}{lo} || {ge}{hi}", f"{ge}{lo},{le}{hi}", f"{ge}{hi} || {le}{lo}",
                        f"!={ep}{b}.*", f"=={ep}{b}.*", f"{le}{lo} || {ge}{hi} || =={hi}"])
 
+def shared_bound_pair(rng):
+    """one operand is a single clause on V (a lone version, an exclusion, a half-line); the other is a range or a union that has V as one
+    of its bounds, under every inclusivity: the branches of Version.union / VersionRange.union / difference that look at 'other == self.min'"""
+    pool = GC.gen_pool(rng, n=3)
+    v, w = rng.sample(pool, 2)
+    a = rng.choice(["==", "", "==", "!=", ">=", ">", "<=", "<"]) + v
+    ge, le = rng.choice([">", ">", ">="]), rng.choice(["<", "<", "<="])
+    b = rng.choice([f"{ge}{w},{le}{v}", f"{ge}{v},{le}{w}", f"{ge}{w},{le}{v}", f"{ge}{v},{le}{w}", f"{le}{v}", f"{ge}{v}", f"{ge}{w},{le}{v} || {rng.choice(['>', '>='])}{rng.choice(pool)}",
+                    f"{le}{w} || {ge}{v}"])
+    return (a, b) if rng.random() < 0.6 else (b, a)
+
 def edge_pairs(R, n):
     rng = R.rng; out = []
     for _ in range(n):
         a = edge_text(rng)
         b = edge_text(rng) if rng.random() < 0.5 else GC.gen_constraint(rng, GC.gen_pool(rng), GC.OPS, 2, 2)
+        if rng.random() < 0.5: a, b = shared_bound_pair(rng)
         ca, ga = I.parse_with_groups(a); cb, gb = I.parse_with_groups(b)
         c = Case(); c.a, c.b, c.ca, c.cb, c.ga, c.gb, c.pool = a, b, ca, cb, ga, gb, []
         out.append(c)
